@@ -5,7 +5,7 @@
 (* is reported (MISMATCH line) and validation continues with the state      *)
 (* advanced from what the implementation really did.                        *)
 (***************************************************************************)
-EXTENDS Crl, Names, Strings, Pem, KeyLife, TLC, Json, IOUtils
+EXTENDS Import, Strings, Pem, KeyLife, TLC, Json, IOUtils
 
 Rec == ndJsonDeserialize(IOEnv.TRACE)
 
@@ -77,6 +77,11 @@ ReqStringEv(ev) ==
                 <<"C04.der_strict", ev.obs.derStrict = <<>> >> }
          [] OTHER -> {}
 
+ReqImportEv(ev) ==
+  IF ev.args.origin = "rcgen"
+  THEN { <<"C17.import_succeeds", ev.out = "Ok">> } \cup (IF ev.out = "Ok" THEN ReqImportRcgen(ev.args, ev.obs) ELSE {})
+  ELSE ReqImportForeign(ev.args, ev.out, ev.obs)
+
 ReqKeyEv(ev) ==
   IF ev.op = "AlgTable" THEN ReqAlgTable(ev.obs)
   ELSE ReqKeyLoad(ev.be, ev.args, ev.out, ev.obs)
@@ -118,6 +123,8 @@ ReqOf(ev) ==
   (CASE ev.op = "Cert" -> ReqCertEv(ev)
      [] ev.op = "Csr" -> ReqCsrEv(ev)
      [] ev.op = "Crl" -> ReqCrlEv(ev)
+     [] ev.op = "ImportCa" -> ReqImportEv(ev)
+     [] ev.op = "Chain" -> ReqChain(ev.args, ev.out, ev.obs)
      [] ev.op = "Pem" -> (IF ev.out = "Ok" THEN ReqPem(ev.args, ev.obs) ELSE {<<"C14.pem_produced", FALSE>>})
      [] ev.op \in {"KeyLoad", "AlgTable"} -> ReqKeyEv(ev)
      [] ev.op \in {"StringRuns", "StringBytes", "StringMulti", "StringPlace"} -> ReqStringEv(ev)
